@@ -216,6 +216,30 @@ func init() {
 		"sort.Slice": func(e *Exec, st *State, call *ast.CallExpr, recv Term, args []Term) []Term {
 			return sortModel(e, st, call, call.Args[0])
 		},
+		"sort.Sort": func(e *Exec, st *State, call *ast.CallExpr, recv Term, args []Term) []Term {
+			// sort.Sort(T(x)) where T is a slice type implementing sort.Interface: x becomes a rearrangement of
+			// itself (the order established is that of T.Less and is not interpreted here)
+			arg := call.Args[0]
+			if c, ok := arg.(*ast.CallExpr); ok && len(c.Args) == 1 {
+				if tv, ok := e.tvOf(c.Fun); ok && tv.IsType() {
+					arg = c.Args[0]
+				}
+			}
+			loc := e.lvalOf(st, arg)
+			s := loc.get(st)
+			if !strings.HasPrefix(s.Sort, "Sl_") {
+				e.unsupported(call.Pos(), "sort.Sort of %s", s.Sort)
+				return nil
+			}
+			na := e.Ctx.Fresh("sorted", ArraySort(SInt, e.S.sliceElem(s.Sort)))
+			ln := e.S.SlLen(s)
+			e.Ctx.Assume(st.PC, e.permPred(na, e.S.SlArr(s), ln))
+			// every element of the result is an element of the input
+			e.Ctx.Assume(st.PC, Term{fmt.Sprintf("(forall ((i Int)) (! (=> (and (<= 0 i) (< i %s)) (exists ((j Int)) (and (<= 0 j) (< j %s) (= (select %s i) (select %s j))))) :pattern ((select %s i))))", ln.S, ln.S, na.S, e.S.SlArr(s).S, na.S), SBool})
+			e.noteSliceWrite(st, call, arg)
+			loc.set(st, e.S.MkSlice(s.Sort, na, ln, e.S.SlNil(s)))
+			return nil
+		},
 		"sort.Ints": func(e *Exec, st *State, call *ast.CallExpr, recv Term, args []Term) []Term {
 			return sortModel(e, st, call, call.Args[0])
 		},
@@ -279,6 +303,8 @@ func sortModel(e *Exec, st *State, call *ast.CallExpr, x ast.Expr) []Term {
 	if es == SInt && isIntLess(e, call) {
 		e.Ctx.Assume(st.PC, Term{fmt.Sprintf("(forall ((i Int) (j Int)) (! (=> (and (<= 0 i) (<= i j) (< j %s)) (<= (select %s i) (select %s j))) :pattern ((select %s i) (select %s j))))", ln.S, na.S, na.S, na.S, na.S), SBool})
 	}
+	e.Ctx.Assume(st.PC, e.permPred(na, e.S.SlArr(s), ln))
+	e.noteSliceWrite(st, call, x)
 	loc.set(st, e.S.MkSlice(s.Sort, na, ln, e.S.SlNil(s)))
 	return nil
 }
